@@ -8,7 +8,7 @@ Definition recent_cap : nat := 50%nat.
 Definition direct_resp_table : list (istate * istate) :=
   [(Wait, Wait); (Start, Start); (Cnclld, Cnclld); (CnclldMan, CnclldMan); (Fin, Fin); (FinMod, FinMod); (Fail, Fail)].
 Definition direct_raise_resp : istate := Fail.
-Definition consumer_completing : list istate := [Fail; Cnclld; CnclldMan].
+Definition consumer_completing : list istate := [Cnclld; CnclldMan; Fail].
 Definition consumer_nonfinal : list istate := [Wait; Start].
 Definition consumer_keeps_early_parts : bool := true.
 Definition txid_under_lock : bool := true.
